@@ -615,3 +615,86 @@ pub fn selfcheck() -> Result<(), String> {
     }
     Ok(())
 }
+
+// ---------------------------------------------------------------------------
+// Known-answer vectors (official TLSH values quoted in the repository's tests
+// and documentation).  They validate the *models*, without the crate.
+
+pub const LOREM: &[u8] = b"Lorem ipsum dolor sit amet, consectetur adipiscing elit, sed do eiusmod tempor incididunt ut labore et dolore magna aliqua. Ut enim ad minim veniam, quis nostrud exercitation ullamco laboris nisi ut aliquip ex ea commodo consequat. Duis aute irure dolor in reprehenderit in voluptate velit esse cillum dolore eu fugiat nulla pariatur. Excepteur sint occaecat cupidatat non proident, sunt in culpa qui officia deserunt mollit anim id est laborum.";
+
+/// Model hash of `data` as text, or the rejection name.
+pub fn model_text(data: &[u8], nb: usize, ck: usize, o: Opts) -> String {
+    let mut st = RefState::new(if nb == 48 { 48 } else { 256 });
+    st.update(data);
+    match st.finalize(nb, ck, o) {
+        None => "reference-undefined".into(),
+        Some(Err(e)) => e.name().into(),
+        Some(Ok(h)) => String::from_utf8(encode_text(&h.bytes(), ck, true)).unwrap(),
+    }
+}
+
+pub fn katcheck() -> Result<usize, String> {
+    let mut n = 0;
+    let mut expect = |what: &str, got: String, want: &str| -> Result<(), String> {
+        n += 1;
+        if got == want {
+            Ok(())
+        } else {
+            Err(format!("KAT {}: model gives {} but the official value is {}", what, got, want))
+        }
+    };
+    // default options of the crate: optimistic, f32 Q ratios, nothing waived
+    let d = Opts(0);
+    expect("lorem/Short", model_text(LOREM, 48, 1, d), "T1E1F029B2FCAA4D5FE04846105FA5E2")?;
+    expect("lorem/Normal", model_text(LOREM, 128, 1, d), "T1DCF0DC36520C1B007FD32079B226559FD998A0200725E75AFCEAC99F5881184A4B1AA2")?;
+    expect("lorem/Normal3", model_text(LOREM, 128, 3, d), "T1DC33D4F0DC36520C1B007FD32079B226559FD998A0200725E75AFCEAC99F5881184A4B1AA2")?;
+    expect("lorem/Long", model_text(LOREM, 256, 1, d), "T1DCF0DCA405C02AF1D4860CA5894A05301D60E9915198060A7044C608A1E89A11BD2B2836520C1B007FD32079B226559FD998A0200725E75AFCEAC99F5881184A4B1AA2")?;
+    expect("lorem/Long3", model_text(LOREM, 256, 3, d), "T1DC33D4F0DCA405C02AF1D4860CA5894A05301D60E9915198060A7044C608A1E89A11BD2B2836520C1B007FD32079B226559FD998A0200725E75AFCEAC99F5881184A4B1AA2")?;
+    expect("lorem/Normal/intq", model_text(LOREM, 128, 1, Opts(2)), "T1DCF0DC36520C1B007FD32079B226559FD998A0200725E75AFCEAC99F5881184A4B1AA2")?;
+    expect("hello/Short", model_text(b"Hello, World!", 48, 1, d), "T1E16004017D3551777571D55C005CC5")?;
+    // TLSH timing_unittest vectors (1 MB)
+    let v1: Vec<u8> = (b'A'..=b'Z').cycle().take(1_000_000 - 1).chain([0]).collect();
+    expect("timing_unittest/1", model_text(&v1, 128, 1, d), "T1A12500088C838B0A0F0EC3C0ACAB82F3B8228B0308CFA302338C0F0AE2C24F28000008")?;
+    let v2: Vec<u8> = (b' '..(b' ' + 90)).cycle().take(1_000_000 - 1).chain([0]).collect();
+    expect("timing_unittest/2", model_text(&v2, 128, 1, d), "T129251210F4C18D0A5F0661C4F64D905B585253A3024F022323E5074CC5601904886D1C")?;
+    // documentation examples: rejection kinds, their order and the permissive options
+    let lovak = b"Lovak won the squad prize cup for sixty big jumps.";
+    expect("lovak", model_text(lovak, 128, 1, d), "T14A90024954691E114404124180D942C1450F8423775ADE1510211420456593621A8173")?;
+    expect("lovak/conservative", model_text(lovak, 128, 1, Opts(1)), "TooSmallInput")?;
+    let fox = b"The quick brown fox jumps over the lazy dog.";
+    expect("fox", model_text(fox, 128, 1, d), "TooSmallInput")?;
+    expect("fox/small", model_text(fox, 128, 1, Opts(4)), "T19E90024A21181294648A1888438D94B292C8C510612114116430600218082219C98551")?;
+    let half = b"ABCDEFGHIJKLMNOPQRSTABCDEFGHIJKLMNOPQRSTABCDEFGHIJ";
+    expect("half", model_text(half, 128, 1, d), "BucketsAreHalfEmpty")?;
+    expect("half/allow", model_text(half, 128, 1, Opts(8)), "T1609000080C838F2A0F2C82C0ECA282F33808838B00CE0300228C2F80C8800E08800000")?;
+    let quarter = b"ABCDEABCDEABCDEABCDEABCDEABCDEABCDEABCDEABCDEABCDE";
+    expect("quarter/half-only", model_text(quarter, 128, 1, Opts(8)), "BucketsAreThreeQuarterEmpty")?;
+    expect("quarter/allow", model_text(quarter, 128, 1, Opts(16)), "T14590440C330003C00C0033000000C300F000C00300C030000000C3000000000000C000")?;
+    // distances quoted from the official implementation / documentation
+    let dist = |a: &str, b: &str, size: usize, ck: usize, nb: usize| -> Result<u32, String> {
+        let x = decode_text(a.as_bytes(), size, ck, nb, 0, false).map_err(|e| format!("{:?}", e))?;
+        let y = decode_text(b.as_bytes(), size, ck, nb, 0, false).map_err(|e| format!("{:?}", e))?;
+        Ok(distance(&x, &y, ck, false))
+    };
+    expect(
+        "distance/timing_unittest",
+        dist("T1A12500088C838B0A0F0EC3C0ACAB82F3B8228B0308CFA302338C0F0AE2C24F28000008", "T129251210F4C18D0A5F0661C4F64D905B585253A3024F022323E5074CC5601904886D1C", 35, 1, 128)?.to_string(),
+        "138",
+    )?;
+    expect(
+        "distance/rustc-normal",
+        dist("T12AD5BE86FFE41D17CC268876A9AE472077B2B0032716DBAF1849A7647DDB7C0DF16488", "T1EDD5BE96FFE41D1BCC268C7699AE4720B7B2A0032716DBAF1848A7647DD77C0DF16488", 35, 1, 128)?.to_string(),
+        "9",
+    )?;
+    expect(
+        "distance/rustc-short",
+        dist("T140D5F17F44F8AB007AE2AC46E515DC", "T140D5F17F44FCAB007AE2A846E515DC", 15, 1, 48)?.to_string(),
+        "2",
+    )?;
+    // the 384-byte executable shipped with the repository (if present)
+    if let Ok(exe) = std::fs::read("/repo/fast-tlsh/data/examples/smallexe.exe") {
+        expect("smallexe/Short", model_text(&exe, 48, 1, d), "T140E0483A5DFC1B073D86A4A2C55A43")?;
+        expect("smallexe/Normal", model_text(&exe, 128, 1, d), "T1FFE04C037F895471D42E5530499E47473757E5E456D28B13ED1944654C8534C7CE9E01")?;
+    }
+    Ok(n)
+}
